@@ -5,8 +5,9 @@ CONSTANTS
   TimeVecs <- TimeVecsT
   FlagVecs <- FlagVecsT
   TrackedMode = 3
-  Thresholds = {1,2}
-SPECIFICATION Spec
+  Thresholds = {1,2,3}
+  Depth = 10
+SPECIFICATION SSpec
+INVARIANT Emit
 INVARIANT StateOK
-INVARIANT WF
 CHECK_DEADLOCK FALSE
